@@ -181,6 +181,7 @@ def h(t, part):
                 m.chan.append(encode({'method': ['explode', '', 'EMIT', 'emit '][v], 'host_id': other, 'event': 'x'}, enc))
             elif kind == 'emit-that-raises':
                 boom_send['on'] = 'raise-%d' % k
+                boom_send['cancelled'] = asyncio_ and v % 2 == 1      # asyncio: the write is cancelled
                 m.chan.append(encode({'method': 'emit', 'event': 'raise-%d' % k, 'data': 1, 'namespace': '/', 'room': None,
                                       'skip_sid': None, 'callback': None, 'host_id': other}, enc))
             elif kind == 'listen-raises':
@@ -199,6 +200,8 @@ def h(t, part):
             if boom_send['on'] and boom_send['on'] in str(pkt.data):
                 if asyncio_:
                     async def f():
+                        if boom_send.get('cancelled'):
+                            raise real_asyncio.CancelledError()
                         raise Boom('send')
                     return f()
                 raise Boom('send')
